@@ -361,6 +361,7 @@ func (pid *grainPID) receive(grainContext *GrainContext) {
 	}
 
 	if pid.schedState.TrySchedule() {
+		verifhook.At("turn.push", &pid.schedState, 0, 0)
 		pid.dispatcher.schedule(pid)
 	}
 }
@@ -380,9 +381,11 @@ func (pid *grainPID) runTurn(w *worker) {
 	verifhook.At("gt.take", pid.identity, 0, 0)
 	if !pid.schedState.TakeForProcessing() {
 		verifhook.At("gt.end", pid.identity, 0, 0)
+		verifhook.At("turn.end", &pid.schedState, 0, 0)
 		return
 	}
 	verifhook.At("gt.begin", pid.identity, 0, 0)
+	verifhook.At("turn.begin", &pid.schedState, 0, 0)
 
 	budget := w.dispatcher.throughput
 	for range budget {
@@ -395,18 +398,23 @@ func (pid *grainPID) runTurn(w *worker) {
 		if grainContext == nil {
 			if pid.finishOrReclaim() {
 				verifhook.At("gt.end", pid.identity, 0, 0)
+				verifhook.At("turn.end", &pid.schedState, 0, 0)
 				return
 			}
 			verifhook.At("gt.begin", pid.identity, 1, 0)
+			verifhook.At("turn.begin", &pid.schedState, 1, 0)
 			continue
 		}
 		pid.dispatchOne(grainContext)
 	}
 	verifhook.At("gt.release", pid.identity, 1, 0)
+	verifhook.At("turn.release", &pid.schedState, 1, 0)
 	pid.schedState.YieldToScheduled()
 	verifhook.At("gt.resched", pid.identity, 0, 0)
+	verifhook.At("turn.resched", &pid.schedState, 0, 0)
 	w.reschedule(pid)
 	verifhook.At("gt.end", pid.identity, 0, 0)
+	verifhook.At("turn.end", &pid.schedState, 0, 0)
 }
 
 // dequeueResponse pops the next async response envelope, or nil when the
@@ -735,6 +743,7 @@ func (pid *grainPID) enqueueEnvelope(ctx context.Context, envelope any) error {
 	}
 
 	if pid.schedState.TrySchedule() {
+		verifhook.At("turn.push", &pid.schedState, 0, 0)
 		pid.dispatcher.schedule(pid)
 	}
 
@@ -805,6 +814,7 @@ func (pid *grainPID) enqueueInFlightCancellations() {
 // draining within the same budget.
 func (pid *grainPID) finishOrReclaim() bool {
 	verifhook.At("gt.release", pid.identity, 0, 0)
+	verifhook.At("turn.release", &pid.schedState, 0, 0)
 	pid.schedState.reset()
 	if !pid.hasPendingWork() {
 		return true
@@ -866,6 +876,7 @@ func (pid *grainPID) deliverTimerTick(entry *grainTimerEntry) {
 	}
 
 	if pid.schedState.TrySchedule() {
+		verifhook.At("turn.push", &pid.schedState, 0, 0)
 		pid.dispatcher.schedule(pid)
 	}
 }
@@ -1076,6 +1087,7 @@ func (pid *grainPID) enqueuePassivationPill() bool {
 	}
 
 	if pid.schedState.TrySchedule() {
+		verifhook.At("turn.push", &pid.schedState, 0, 0)
 		pid.dispatcher.schedule(pid)
 	}
 	return true
